@@ -22,6 +22,7 @@ func init() {
 			{ID: "C06-R5", Doc: "panic text is kept, with fatal severity", Run: c06r5},
 			{ID: "C06-R6", Doc: "worker never reports a half-run task OK", Run: c06r6},
 			{ID: "C06-R7", Doc: "a failed combining attempt leaves nothing behind for its retry", Run: c06r7},
+			{ID: "C14-R7", Doc: "the local executor returns its procs on every exit, so a failed task does not cost the session its parallelism (shared)", Run: c14r7},
 		},
 	})
 }
@@ -563,6 +564,7 @@ func c06r2(c *RC) {
 
 func c06r3(c *RC) {
 	pr := c.P
+	c06userErrorsStayFatal(c)
 	// classify: an if whose condition says "<e> is end-of-stream or temporary" (reader)
 	// or "<e> is temporary" (writer) keeps <e>; its else wraps <e> as errors.Fatal;
 	// both store into the same target.
